@@ -46,10 +46,12 @@ pub struct TableCfg {
     pub max_const: usize,
     /// all binary operators non-commutative
     pub no_comm: bool,
+    /// percentage of binary operators with alphabetic names
+    pub alpha_pct: u32,
 }
 impl Default for TableCfg {
     fn default() -> Self {
-        TableCfg { max_bin: 9, max_un: 5, max_const: 3, no_comm: false }
+        TableCfg { max_bin: 9, max_un: 5, max_const: 3, no_comm: false, alpha_pct: 30 }
     }
 }
 
@@ -73,7 +75,7 @@ pub fn gen_table(t: &mut Tape, cfg: &TableCfg) -> Vec<OpSpec> {
         v
     };
     for _ in 0..nbin {
-        let alpha = t.chance(30);
+        let alpha = t.chance(cfg.alpha_pct);
         let name = if alpha { *t.pick(&ALPHA_BIN) } else { *t.pick(&SYM_BIN) };
         if used.contains(name) {
             continue;
